@@ -1541,6 +1541,9 @@ func (t *itype) convertibleTo(o *itype) bool {
 	if t.assignableTo(o) {
 		return true
 	}
+	if t.isNil() {
+		return false
+	}
 
 	// unsafe checks
 	tt, ot := t.TypeOf(), o.TypeOf()
@@ -2501,7 +2504,7 @@ func chanElement(t *itype) *itype {
 	return nil
 }
 
-func isBool(t *itype) bool { return t.TypeOf().Kind() == reflect.Bool }
+func isBool(t *itype) bool { return isBoolean(t.TypeOf()) }
 func isChan(t *itype) bool { return t.TypeOf().Kind() == reflect.Chan }
 func isFunc(t *itype) bool { return t.TypeOf().Kind() == reflect.Func }
 func isMap(t *itype) bool  { return t.TypeOf().Kind() == reflect.Map }
